@@ -166,7 +166,15 @@ def main():
             return d
         elif name == 'composed':
             other = build(op['other'])       # other o f
+            s_other = snap(other)
             g = geometry.ComposedFunction(other, f)
+            d = describe(g, grid, pts)
+            if op.get('bd'):
+                b = g.boundary(op['bd'])
+                d['bd_cls'] = type(b).__name__
+                d['bd'] = describe(b, op['bdgrid'])
+            d['other_unchanged'] = (snap(other) == s_other)
+            return d
         elif name == 'userfunction':
             # polynomial callables: the same map as a UserFunction
             g = geometry.UserFunction(lambda *x: f(*x), f.support, jac=None)
@@ -205,11 +213,47 @@ def main():
                 d['bd'][spec] = describe(b, bg)
         return d
 
+    # polynomial callables for UserFunction (xyz argument order); jac returns grid_shape x dim x sdim
+    USER = {
+        'poly2': (lambda x, y: (x * y + 2.0, x - y * y),
+                  lambda x, y: np.stack([np.stack(np.broadcast_arrays(y, x), -1),
+                                         np.stack(np.broadcast_arrays(1.0 + 0 * x + 0 * y, -2.0 * y + 0 * x), -1)], -2)),
+        'xonly': (lambda x, y: x * x - 0.5, None),           # uses only one argument: must be broadcast to the grid
+        'poly3': (lambda x, y, z: (x + 2.0 * y * z, y - x * z, z * z + x), None),
+    }
+
+    def run_user(c):
+        fn, jac = USER[c['user']]
+        supp = [tuple(F(s)) for s in c['support']]
+        g = geometry.UserFunction(fn, supp, jac=jac)
+        d = {'sdim': int(g.sdim), 'dim': int(g.dim) if np.isscalar(g.dim) else list(g.dim), 'output_shape': [int(x) for x in g.output_shape()]}
+        grid = [np.array(F(ax)) for ax in c['grid']]
+        d['grid_eval'] = guarded(lambda: g.grid_eval(grid))
+        d['grid_jac'] = guarded(lambda: g.grid_jacobian(grid)) if jac is not None else None
+        pts = [F(x) for x in c['pts']]
+        d['call'] = [guarded(lambda x=x: g(*x)) for x in pts]
+        P = tuple(np.array([x[k] for x in pts]) for k in range(g.sdim))
+        d['pw_eval'] = guarded(lambda: g.pointwise_eval(P))
+        b = g.boundary(c['bd'])
+        bgrid = [np.array(F(ax)) for ax in c['bdgrid']]
+        d['bd_cls'] = type(b).__name__
+        d['bd_sdim'] = int(b.sdim)
+        d['bd_support'] = [[float(s[0]).hex(), float(s[1]).hex()] for s in b.support]
+        d['bd_grid_eval'] = guarded(lambda: b.grid_eval(bgrid))
+        d['bd_call'] = [guarded(lambda x=x: b(*F(x))) for x in c['bdpts']]
+        d['bd_grid_jac'] = guarded(lambda: b.grid_jacobian(bgrid)) if jac is not None else None
+        return d
+
     payload = json.load(sys.stdin)
     out = []
     for case in payload['cases']:
         res = {}
         try:
+            if 'user' in case:
+                res = run_user(case)
+                res['status'] = 'Ok'
+                out.append(res)
+                continue
             if 'ctor' in case:
                 res = run_ctor(case)
                 res['status'] = 'Ok'
